@@ -353,6 +353,37 @@ pub open spec fn r_tell_timeout<M>(this: HandleView, pid: int, d: Duration, l0: 
     }
 }
 
+/// R_blocking_tell_timeout(d) (rule H): the helper thread ran `timeout(d, tell(msg))` on a private runtime and handed the
+/// result back.  It is R_tell_timeout(d) with the inner tell's own dead-letter label ("tell") and the wrapper's label on the
+/// Timeout branch; or, if tokio could not build the private runtime (environment fault, logged), Err(Send) naming this
+/// actor with nothing sent and nothing recorded.
+pub open spec fn r_tell_timeout2<M>(this: HandleView, pid: int, d: Duration, l0: Seq<Eff>, l1: Seq<Eff>, r: Result<()>, iop: Seq<char>, oop: Seq<char>) -> bool {
+    let env = env_view(pid, None, this.mbx);
+    let pre = l0.push(Eff::Await(AwaitKind::Send));
+    match r {
+        Ok(_) => l1 =~= tm_log(pre.push(Eff::Enq(this.mbx, env)), d),
+        Err(Error::Send { identity, .. }) => identity == this.id
+            && l1 =~= tm_log(dl_log::<M>(pre.push(Eff::Rejected(this.mbx, env)), this.id, DeadLetterReason::ActorStopped, iop), d),
+        Err(Error::Timeout { identity, timeout, operation }) => identity == this.id && tm_fields_ok(timeout, d, operation@, oop)
+            && l1 =~= dl_log::<M>(tm_log(l0, d), this.id, DeadLetterReason::Timeout, oop),
+        Err(_) => false,
+    }
+}
+pub open spec fn rt_build_failed(l0: Seq<Eff>, l1: Seq<Eff>) -> bool { l1 =~= l0.push(Eff::Opaque(OpaqueTag::RtBuildFailed)) }
+pub open spec fn r_blocking_tell_timeout<M>(this: HandleView, pid: int, d: Duration, l0: Seq<Eff>, l1: Seq<Eff>, r: Result<()>) -> bool {
+    (rt_build_failed(l0, l1) && (r matches Err(Error::Send { identity, .. }) && identity == this.id))
+    || r_tell_timeout2::<M>(this, pid, d, l0, l1, r, "tell"@, "blocking_tell"@)
+}
+/// dead letters of a blocking call with a timeout: exactly one per failed delivery - labelled by the inner operation when the
+/// inner operation failed, by the wrapper when the deadline passed - none on success (and none for the environment fault)
+pub open spec fn r_dl2<M>(id: Identity, l0: Seq<Eff>, l1: Seq<Eff>, reason: Option<DeadLetterReason>, iop: Seq<char>, oop: Seq<char>) -> bool {
+    match reason {
+        None => proj_dl(l1) =~= proj_dl(l0),
+        Some(DeadLetterReason::Timeout) => proj_dl(l1) =~= dl_log::<M>(proj_dl(l0), id, DeadLetterReason::Timeout, oop),
+        Some(rs) => proj_dl(l1) =~= dl_log::<M>(proj_dl(l0), id, rs, iop),
+    }
+}
+
 /// the request id carried by the envelope of the enqueue attempt logged at index i
 pub open spec fn req_at(l: Seq<Eff>, i: int) -> int {
     if 0 <= i < l.len() { match l[i] {
@@ -399,6 +430,25 @@ pub open spec fn recv_vid_at(l: Seq<Eff>, i: int) -> int {
 pub open spec fn r_ask_core<M, R>(this: HandleView, pid: int, l0: Seq<Eff>, l1: Seq<Eff>, r: Result<R>, op: Seq<char>) -> bool {
     ask_result_ok(this, r)
     && l1 =~= ask_core_log::<M, R>(this, pid, req_at(l1, l0.len() as int + 1), recv_vid_at(l1, l1.len() - 1), l0, r, op)
+}
+
+/// R_blocking_ask_timeout(d) (rule H): the helper thread - which has no task-local actor identity, so the ask is untracked and
+/// the wait-for graph is not touched - ran `timeout(d, ask(msg))` on a private runtime and handed the result back.  It is
+/// R_ask_timeout(d) for an untracked caller with the inner ask's own dead-letter label ("ask") and the wrapper's label on the
+/// Timeout branch; or the environment fault (no runtime): Err(Send) naming this actor, nothing sent, nothing recorded.
+pub open spec fn r_ask_timeout_untracked2<M, R>(this: HandleView, pid: int, d: Duration, l0: Seq<Eff>, l1: Seq<Eff>, r: Result<R>, iop: Seq<char>, oop: Seq<char>) -> bool {
+    let q = req_at(l1, l0.len() as int + 1);
+    match r {
+        Err(Error::Timeout { identity, timeout, operation }) => identity == this.id && tm_fields_ok(timeout, d, operation@, oop)
+            && (l1 =~= dl_log::<M>(tm_log(l0, d), this.id, DeadLetterReason::Timeout, oop)
+                || l1 =~= dl_log::<M>(tm_log(ask_sent(this, pid, q, l0), d), this.id, DeadLetterReason::Timeout, oop)),
+        _ => tm_last_ok(l1, d) && r_ask_core::<M, R>(this, pid, l0, tm_strip(l1), r, iop),
+    }
+}
+pub open spec fn r_blocking_ask_timeout<M, R>(this: HandleView, pid: int, d: Duration, w0: World, w1: World, r: Result<R>) -> bool {
+    &&& w1.graph() == w0.graph()
+    &&& ((rt_build_failed(w0.log(), w1.log()) && (r matches Err(Error::Send { identity, .. }) && identity == this.id))
+         || r_ask_timeout_untracked2::<M, R>(this, pid, d, w0.log(), w1.log(), r, "ask"@, "blocking_ask"@))
 }
 
 /// R_kill: never suspends (no Await), exactly one try_send of Terminate on the *control* channel, no mailbox effect,
